@@ -329,6 +329,51 @@ func checkC01(args []string) {
 			run.Sample(map[string]any{"case": name, "file_bytes": len(out)})
 		}
 	}
+	// pictures larger than the LZ77 window (2^20 - 120 pixels at Quality > 75, width << 8 / << 6 / << 4 below) whose
+	// tail repeats runs that lie exactly at, just inside and just outside the window limit of each quality class
+	{
+		const fw, fh = 1024, 1040
+		far := image.NewNRGBA(image.Rect(0, 0, fw, fh))
+		for i := 0; i < fw*fh; i++ {
+			v := uint8(rng.Intn(256))
+			far.Pix[4*i], far.Pix[4*i+1], far.Pix[4*i+2], far.Pix[4*i+3] = v, v, v, 255
+		}
+		pos := 1<<20 + 200
+		for _, d := range []int{1<<20 - 121, 1<<20 - 120, 1<<20 - 119, 1<<20 - 60, 1<<20 - 1, 1 << 20, 1024 << 8, 1024<<8 - 1, 1024<<8 + 1, 1024 << 6, 1024<<6 + 1, 1024 << 4, 1024<<4 - 1} {
+			copy(far.Pix[4*pos:4*(pos+150)], far.Pix[4*(pos-d):4*(pos-d+150)])
+			pos += 400
+		}
+		quals := []float32{80}
+		if run.Thorough() {
+			quals = []float32{80, 60, 30, 10, 100}
+		}
+		for _, q := range quals {
+			name := fmt.Sprintf("%dx%d grey noise with repeats at the window limits, lossless q%v m4", fw, fh, q)
+			out, err, pan := safeEncode(far, &webp.EncoderOptions{Lossless: true, Quality: q, Method: 4})
+			run.Eval(name)
+			if pan != nil || err != nil {
+				run.Violate("encode-fails|far-matches", fmt.Sprintf("%s: err=%v panic=%v", name, err, pan), name)
+				continue
+			}
+			dec, derr := guardedDecode(out)
+			if derr != nil {
+				run.Violate("decode-fails|far-matches", name+": "+derr.Error(), name)
+				continue
+			}
+			got, ok := dec.(*image.NRGBA)
+			if !ok || got.Bounds() != far.Bounds() || !bytes.Equal(got.Pix, far.Pix) {
+				n := 0
+				if ok && len(got.Pix) == len(far.Pix) {
+					for k := 0; k < len(far.Pix); k += 4 {
+						if got.Pix[k] != far.Pix[k] {
+							n++
+						}
+					}
+				}
+				run.Violate("pixels|far-matches", fmt.Sprintf("%s: the round trip does not reproduce the picture (%d pixels differ)", name, n), name)
+			}
+		}
+	}
 	for id, why := range validateVP8L(run, lines) {
 		parts := bytes.SplitN([]byte(info[id]), []byte("||"), 2)
 		run.Violate("independent-reader|"+string(parts[1]), string(parts[0])+": "+why, string(parts[0]))
